@@ -606,6 +606,11 @@ impl RrdpServer {
 
     pub fn publish(&self, objects: Objects) -> usize { self.publish_ordered(objects, &[]) }
 
+    /// Forgets the newest version (and every cached rendering); the caller announces another one.
+    pub fn pop_version(&self) {
+        self.with(|s| { s.versions.pop(); s.cache.borrow_mut().clear(); s.cur = None; })
+    }
+
     /// Announces version `idx` (an older one: serial jump backwards; the newest again: forwards).
     pub fn announce(&self, idx: usize) { self.with(|s| { assert!(idx < s.versions.len()); s.cur = Some(idx) }) }
 
